@@ -184,11 +184,10 @@ def generate():
          "def rows : List Row := ["]
     L.append(",\n".join("  ⟨%s, %s, %s, %s, %s⟩" % tuple(lean_str(x) for x in r) for r in rows))
     L += ["]", "",
-          "/-- functions of the core/ and crypto/ headers (the scope of C11) documented as overlap-tolerant -/",
-          "def scope : List String := (rows.filter fun r => r.area = \"core\" ∨ r.area = \"crypto\").map (·.func)", "",
+          "/-- every function documented as overlap-tolerant / same-or-disjoint (core, crypto and math headers) -/",
+          "def scope : List String := rows.map (·.func)", "",
           "/-- (function, exclusions) of the scope -/",
-          "def scopeExcl : List (String × String) :=",
-          "  (rows.filter fun r => r.area = \"core\" ∨ r.area = \"crypto\").map fun r => (r.func, r.excl)", "",
+          "def scopeExcl : List (String × String) := rows.map fun r => (r.func, r.excl)", "",
           "end Bee2V.Gen.C11List", ""]
     return entries, "\n".join(L)
 
